@@ -1364,3 +1364,21 @@ M("c06_zst_slice_fill_forgets_clones_revert", ["C06"], ["C06.R7"], [
         mem::forget(value);
         unsafe { BumpBox::zst_slice_from_len(len) }""")])
 
+M("c09_split_off_empty_shortcut_before_asserts_revert", ["C09"], ["C09.R7"], [
+    ("src/fixed_bump_string.rs", """            self.assert_char_boundary(start);
+            self.assert_char_boundary(end);
+
+            if start == end {
+                return FixedBumpString::new();
+            }""", """            if start == end {
+                return FixedBumpString::new();
+            }
+
+            self.assert_char_boundary(start);
+            self.assert_char_boundary(end);""")])
+M("c09_box_str_split_off_prefix_arm_unchecked", ["C09"], ["C09.R7", "C09.R1"], [
+    ("src/bump_box.rs", """        if start == 0 {
+            self.assert_char_boundary(end);
+""", """        if start == 0 {
+""")])
+
